@@ -707,7 +707,8 @@ func (c *Ctx) akaRules(r *Report, prefix, mode string) {
 	for _, s := range setCases {
 		r.Check(dset[s.K] || hasDefault, ruleC, "setter case "+s.K, s.Pos, "decoded by case or default", "the setter accepts attribute type "+s.K+" but the decoder neither has a case for it nor a default")
 	}
-	if mode == "roundtrip" || mode == "stability" {
+	c.akaScalingRule(r, prefix, um, setCases)
+	if mode == "roundtrip" || mode == "stability" || mode == "decode" {
 		return
 	}
 	// C14: setter size rules
@@ -770,4 +771,171 @@ func normToks(ts []akaTok, zero map[string]bool, decode bool) string {
 		parts = append(parts, "["+t.W+"→"+to+"]")
 	}
 	return strings.Join(parts, "")
+}
+
+// akaScalingRule: the decoder converts the attribute length octet (in 4-octet words) into octets
+// without wrap-around for every length the encodable domain produces in that attribute case.
+// Domain: the setter's value-size interval per case, the property quantifiers for the unbounded
+// ones (spec eap_aka_prime.max_value_octets), length = ceil((4 + len(value)) / 4).
+func (c *Ctx) akaScalingRule(r *Report, prefix string, um *ssa.Function, setCases []akaSetCase) {
+	rule := prefix + "aka.length-scaling"
+	r.Rule(rule, "every multiplication / shift that scales the attribute length octet from words to octets is evaluated in a type that holds 4*length for every length of the encodable domain of that attribute case (no wrap-around)", 4)
+	ws, err := loadWireSpec()
+	if err != nil {
+		r.undecided(rule, "spec", "-", err.Error())
+		return
+	}
+	// domain max length (words) per case constant
+	maxWords := map[string]int64{}
+	names := map[string]string{}
+	for _, n := range []string{"AT_RAND", "AT_AUTN", "AT_RES", "AT_MAC", "AT_KDF", "AT_KDF_INPUT", "AT_CHECKCODE"} {
+		if k := c.constInt("eap", n); k != nil {
+			names[fmt.Sprint(*k)] = n
+		}
+	}
+	for _, s := range setCases {
+		hi := s.LenHi
+		if m, ok := ws.Aka.MaxValueOctets[names[s.K]]; ok && (hi >= INF || hi > m || hi >= (int64(1)<<40)) {
+			hi = m
+		}
+		if hi >= int64(1)<<40 {
+			continue
+		}
+		hdr := ws.Aka.HeaderOctets
+		if names[s.K] == "AT_KDF" {
+			hdr = 2
+		}
+		maxWords[s.K] = (hdr + hi + 3) / 4
+	}
+	loops := naturalLoops(um)
+	if len(loops) != 1 {
+		r.undecided(rule, "loop", c.Pos(um.Pos()), "attribute loop not found")
+		return
+	}
+	li := loops[0]
+	// case bodies
+	type arm struct {
+		k    string
+		body *ssa.BasicBlock
+	}
+	var arms []arm
+	var lastTest *ssa.BasicBlock
+	for _, b := range sortedBlocks(li.body) {
+		iff, ok := b.Instrs[len(b.Instrs)-1].(*ssa.If)
+		if !ok {
+			continue
+		}
+		cond, ok := iff.Cond.(*ssa.BinOp)
+		if !ok || cond.Op != token.EQL {
+			continue
+		}
+		k, ok := cond.Y.(*ssa.Const)
+		if !ok || k.Value == nil {
+			continue
+		}
+		if _, fld, isF := fieldLoad(cond.X); isF && fld == "attrType" {
+			arms = append(arms, arm{k.Value.ExactString(), b.Succs[0]})
+			lastTest = b
+		}
+	}
+	reach := func(from *ssa.BasicBlock) map[*ssa.BasicBlock]bool {
+		seen := map[*ssa.BasicBlock]bool{}
+		st := []*ssa.BasicBlock{from}
+		for len(st) > 0 {
+			x := st[len(st)-1]
+			st = st[:len(st)-1]
+			if seen[x] || !li.body[x] || x == li.header {
+				continue
+			}
+			seen[x] = true
+			st = append(st, x.Succs...)
+		}
+		return seen
+	}
+	armReach := map[string]map[*ssa.BasicBlock]bool{}
+	for _, a := range arms {
+		armReach[a.k] = reach(a.body)
+	}
+	var defReach map[*ssa.BasicBlock]bool
+	if lastTest != nil {
+		defReach = reach(lastTest.Succs[1])
+	}
+	// words of cases handled by the default: setter cases without their own arm
+	defWords := int64(0)
+	for k, w := range maxWords {
+		if _, own := armReach[k]; !own && w > defWords {
+			defWords = w
+		}
+	}
+	f := c.NewFA(um)
+	n := 0
+	for _, b := range sortedBlocks(li.body) {
+		for _, ins := range b.Instrs {
+			bo, ok := ins.(*ssa.BinOp)
+			if !ok || (bo.Op != token.MUL && bo.Op != token.SHL) {
+				continue
+			}
+			var lenOp, kOp ssa.Value
+			if derivesFromLengthField(bo.X) {
+				lenOp, kOp = bo.X, bo.Y
+			} else if derivesFromLengthField(bo.Y) && bo.Op == token.MUL {
+				lenOp, kOp = bo.Y, bo.X
+			} else {
+				continue
+			}
+			_ = lenOp
+			kc, ok := kOp.(*ssa.Const)
+			if !ok {
+				continue
+			}
+			factor, _ := constInt64(kc.Value)
+			if bo.Op == token.SHL {
+				factor = 1 << uint(factor)
+			}
+			// which cases reach this instruction
+			need := int64(0)
+			var which []string
+			for k, rs := range armReach {
+				if rs[b] {
+					if w := maxWords[k]; w > need {
+						need = w
+					}
+					which = append(which, names[k]+"("+k+")")
+				}
+			}
+			if defReach[b] && len(which) == 0 {
+				need = defWords
+				which = append(which, "default")
+			}
+			sort.Strings(which)
+			_, thi, isInt := f.typeRange(bo.Type())
+			n++
+			key := fmt.Sprintf("%s [%s]", c.SrcExpr(bo), strings.Join(which, ","))
+			if !isInt {
+				r.undecided(rule, key, c.InstrPos(bo), "not an integer operation")
+				continue
+			}
+			r.Check(factor*need <= thi, rule, key, c.InstrPos(bo), fmt.Sprintf("%d * %d words = %d fits %s", factor, need, factor*need, bo.Type()), fmt.Sprintf("evaluated in %s: %d * length wraps for length > %d, but this case's domain reaches %d words (%d octets)", bo.Type(), factor, thi/factor, need, factor*need))
+		}
+	}
+	if n == 0 {
+		r.undecided(rule, "no scaling operation found", c.Pos(um.Pos()), "the decoder does not scale the length octet by a constant: the rule's anchor is gone")
+	}
+}
+
+// derivesFromLengthField: v is the attribute's length field, possibly converted.
+func derivesFromLengthField(v ssa.Value) bool {
+	for i := 0; i < 4; i++ {
+		switch x := v.(type) {
+		case *ssa.Convert:
+			v = x.X
+			continue
+		case *ssa.ChangeType:
+			v = x.X
+			continue
+		}
+		break
+	}
+	_, fld, ok := fieldLoad(v)
+	return ok && fld == "length"
 }
